@@ -2,7 +2,7 @@
 import copy, json, os, random, shutil, tempfile
 from . import common, projgen, projcheck, projrun
 
-PROF = projgen.profile(p_cli_comma_define=0.15, n_builders=(1, 3), n_apps=(1, 3), p_defaults=0.0, p_removes=0.0, p_cli_select=0.7, p_cli_disable=0.6, p_cli_define=0.7,
+PROF = projgen.profile(p_cli_comma_define=0.15, p_uses_removal_marker=0.0, n_builders=(1, 3), n_apps=(1, 3), p_defaults=0.0, p_removes=0.0, p_cli_select=0.7, p_cli_disable=0.6, p_cli_define=0.7,
                        p_cli_builders=0.3, p_cli_apps=0.3, p_tasks=0.1, p_custom_build=0.05, p_download=0.03, p_ctxlist=0.0)
 OBS = ("status", "decision", "modules", "loaded", "global_env", "module_env", "outfile", "tasks", "ninja")
 
